@@ -540,8 +540,9 @@ def h2(ctx, rep, entries, O, rn):
                     d = option_sum_shape(s, n, state_syms) if s.op == "sym" else None
                     if d is not None:
                         continue
-                    if fn == "assign_aux_nepb_to_epb_services" and cls == "hash" and local_rewrite(info, s, n, sorted_by_id):
-                        continue
+                    if cls == "hash" and any(t.op in ("retain", "map_inplace", "push") for t in tm.subterms(n)) \
+                            and local_rewrite(info, s, n, sorted_by_id):
+                        continue          # a rewrite of the component list restricted to the system of the current id
                     verdicts.append("a loop-carried value is updated in a way that is not a recognised commutative accumulation: %s"
                                     % tm.show(n, 3)[:160])
                 key = "C10/H2/%s/%s/loop%d" % (ename.split("/")[0], fn, ordn)
